@@ -373,9 +373,24 @@ class StmtMixin:
             t = self.truth(r.st, r.val)
             s1 = r.st.copy(); s1.assume(t)
             s2 = r.st.copy(); s2.assume(z3.Not(t))
+            self.narrow(s1, s.test, True); self.narrow(s2, s.test, False)
             if self.feasible(s1): out += self.block(s1, s.body)
             if self.feasible(s2): out += self.block(s2, s.orelse)
         return out
+
+    NARROW = {"list": "list", "List": "list", "dict": "dict", "set": "set", "tuple": "tuple", "str": "str", "float": "float", "Path": "Path"}
+
+    def narrow(self, st, test, positive):
+        """flow-sensitive static typing: isinstance(x, T) known true in this branch"""
+        if isinstance(test, ast.UnaryOp) and isinstance(test.op, ast.Not):
+            return self.narrow(st, test.operand, not positive)
+        if (positive and isinstance(test, ast.Call) and self.dotted(test.func) == "isinstance" and isinstance(test.args[0], ast.Name)
+                and isinstance(test.args[1], (ast.Name, ast.Attribute))):
+            nm, cls = test.args[0].id, self.dotted(test.args[1]).split(".")[-1]
+            ty = self.NARROW.get(cls) or (cls if cls in self.reg.classes else None)
+            cur = st.env.get(nm)
+            if ty and isinstance(cur, V) and (cur.ty is None or base_type(cur.ty) != ty):
+                st.env[nm] = V(cur.t, ty, cur.src)
 
     def match_handler(self, exc, h):
         if h.type is None:
